@@ -10,6 +10,7 @@ import (
 	"path/filepath"
 	"sort"
 	"strings"
+	"time"
 
 	"verif/core"
 	"verif/model"
@@ -41,10 +42,11 @@ type runVariant struct {
 	outNull bool // standard output is /dev/null (a character device): only success is compared
 	oddName bool // FILE and -o names contain $, ~, blanks and braces
 	linkCwd bool // the working directory is entered through a symbolic link and -o is relative with a .. in it
+	late    bool // the producer of the standard input starts 2.6 s late (a slow pipeline, somebody typing)
 }
 
 func (v runVariant) String() string {
-	return fmt.Sprintf("procs=%d race=%v debug=%v in=%s out-o=%v existing-file=%v in-place=%v stdin-devnull=%v stdin-pieces=%d stdout-devnull=%v odd-file-names=%v cwd-through-symlink=%v", v.procs, v.race, v.debug, v.inPath, v.outFile, v.prefill, v.inPlace, v.devNull, v.pieces, v.outNull, v.oddName, v.linkCwd)
+	return fmt.Sprintf("procs=%d race=%v debug=%v in=%s out-o=%v existing-file=%v in-place=%v stdin-devnull=%v stdin-pieces=%d stdout-devnull=%v odd-file-names=%v cwd-through-symlink=%v stdin-starts-late=%v", v.procs, v.race, v.debug, v.inPath, v.outFile, v.prefill, v.inPlace, v.devNull, v.pieces, v.outNull, v.oddName, v.linkCwd, v.late)
 }
 
 // runClass executes one variant and returns (success, output bytes, result).
@@ -71,6 +73,9 @@ func runClass(c *core.Ctx, cl detClass, v runVariant) (bool, []byte, *runner.Res
 		inName, outName = "Ke$ha - ${TiK} ~ToK$HOME.in", "A$AP ~ $PATH {x}.out"
 	}
 	opt.StdinPieces = v.pieces
+	if v.late {
+		opt.StdinDelay = 2600 * time.Millisecond
+	}
 	if v.outNull {
 		opt.Redirect = ">/dev/null"
 	}
@@ -82,6 +87,14 @@ func runClass(c *core.Ctx, cl detClass, v runVariant) (bool, []byte, *runner.Res
 		case "file":
 			inFile = c.Scratch.File(inName, cl.input)
 			args = append(args, inFile)
+		case "dashfile":
+			// a file that is called "-", addressed as ./- : a FILE like any other, not the standard input
+			dir := c.Scratch.Path("dashdir")
+			os.MkdirAll(dir, 0o755)
+			os.WriteFile(filepath.Join(dir, "-"), cl.input, 0o644)
+			opt.Dir = dir
+			opt.Stdin = []byte("C[1]{txt=this is the standard input, not the FILE}\n")
+			args = append(args, []string{"./-", ".//-", "../" + filepath.Base(dir) + "/-"}[len(cl.input)%3])
 		case "devstdin":
 			// FILE that is a pipe
 			opt.Stdin = cl.input
@@ -362,7 +375,7 @@ func checkC12(c *core.Ctx) {
 			variants = append(variants, v)
 		}
 		if cl.reads && cl.input != nil {
-			for _, ip := range []string{"dash", "file", "devstdin", "regular", "fileoffset", "socket"} {
+			for _, ip := range []string{"dash", "file", "devstdin", "regular", "fileoffset", "socket", "dashfile"} {
 				v := base
 				v.inPath = ip
 				variants = append(variants, v)
@@ -400,6 +413,11 @@ func checkC12(c *core.Ctx) {
 		{
 			v := base
 			v.outNull = true
+			variants = append(variants, v)
+		}
+		if cl.reads && cl.input != nil && i%4 == 0 {
+			v := base
+			v.late = true
 			variants = append(variants, v)
 		}
 		if cl.writes {
@@ -607,6 +625,9 @@ func variantDim(v runVariant) string {
 	}
 	if v.oddName {
 		d = append(d, "names")
+	}
+	if v.late {
+		d = append(d, "late")
 	}
 	if len(d) == 0 {
 		return "repeat"
